@@ -312,7 +312,7 @@ PROPS = {
     "C15": {
         "test": "TestC15",
         "lean_modules": ["Gittuf.Props.C15"],
-        "n": {"quick": 40, "thorough": 800},
+        "n": {"quick": 100, "thorough": 1600},
         "min_per_shard": 20,
         "rule": "one case = a REAL pair of repositories (bare remote + bare local with the remote as origin) whose RSLs share a prefix of 0-3 entries and "
                 "then carry local-only / remote-only suffixes of 0-4 (thorough: -10) entries: reference entries over {main, feature, dev} (65% disjoint reference sets, "
